@@ -2,6 +2,7 @@
 
 from __future__ import annotations
 
+import contextlib
 import copy
 import hashlib
 
@@ -26,7 +27,7 @@ ASSUMPTIONS = [
 ]
 COMPONENTS = {"real": ["pyxel Processor deep copies / create_new_processor / Processor.replace / observation paths", "dask get_async"], "stub": ["thread pool"]}
 BUDGET = {"quick": {"n": 240, "wall": 100, "determinism": 4}, "thorough": {"n": 6000, "wall": 1500, "determinism": 12}}
-REQUIRED_REACH = ["path:seq", "path:par", "stateful", "mutate_list", "mutate_ndarray", "failed_run_snapshot", "polluted_caller", "mode:sequential", "mode:product"]
+REQUIRED_REACH = ["line_level_preemption", "readout_times_swept", "path:seq", "path:par", "stateful", "mutate_list", "mutate_ndarray", "failed_run_snapshot", "polluted_caller", "mode:sequential", "mode:product"]
 
 
 def generate(rng, tier):
@@ -34,6 +35,12 @@ def generate(rng, tier):
     scn["path"] = rng.choice(["seq", "par"])
     scn["sched"] = obs.gen_sched(rng, preemptive_ok=True)
     scn["sched"]["procs"] = False
+    if scn["path"] == "par" and scn["mode"]["obs_mode"] == "product" and rng.random() < 0.3:
+        # the parallel path also accepts the readout time itself as a swept parameter
+        scn["readout"] = {"times": [1.0], "start_time": 0.0, "non_destructive": scn["readout"]["non_destructive"]}
+        scn["mode"]["parameters"] = [p for p in scn["mode"]["parameters"] if p.get("enabled", True)][:1]
+        scn["mode"]["parameters"].append({"key": "observation.readout.times", "values": rng.sample([2.0, 4.0, 7.5, 11.0], rng.randint(2, 3)), "enabled": True})
+        scn["sched"]["lines"] = scn["sched"]["policy"] in ("preempt", "pct")
     scn["nd_args"] = rng.random() < 0.4  # pass vec as numpy arrays in the caller's pipeline
     scn["pollute"] = rng.random() < 0.3
     scn["fail_level"] = None
@@ -141,7 +148,9 @@ def _standalone(scn, combo):
     s = copy.deepcopy(scn)
     for key, val in combo.items():
         parts = key.split(".")
-        if parts[0] == "detector":
+        if key == "observation.readout.times":
+            s["readout"]["times"] = [float(val)]
+        elif parts[0] == "detector":
             s["detector"]["qe" if parts[-1] == "quantum_efficiency" else "temperature"] = val
         else:
             _, g, name, _, arg = parts
@@ -170,6 +179,8 @@ def execute(scn, forced=None):
     models = [m for _, m in ref.enabled_models(scn["pipeline"])]
     has_state = any(m["arguments"].get("stateful") for m in models)
     has_mut = any(m["arguments"].get("mutate") for m in models)
+    if any(p["key"] == "observation.readout.times" for p in scn["mode"]["parameters"]):
+        stats["readout_times_swept"] = 1
     if has_state:
         stats["stateful"] = 1
     if has_mut:
@@ -210,7 +221,10 @@ def execute(scn, forced=None):
     try:
         if path == "par":
             sim = sched.Sim(random.Random(sc["sim_seed"]), policy=sc["policy"], workers=sc["workers"], preempt_p=sc["preempt_p"], pct_d=sc["pct_d"], forced=forced)
-            with sim.running():
+            ls = seams.LineSeam()
+            if sc.get("lines"):
+                stats["line_level_preemption"] = 1
+            with (ls.active() if sc.get("lines") else contextlib.nullcontext()), sim.running():
                 tree = pyxel.run_mode(mode=mode, detector=det, pipeline=pipe, with_inherited_coords=True)
                 lazy = tree
                 try:
@@ -256,8 +270,8 @@ def execute(scn, forced=None):
                 for b, w in want.items():
                     if b not in got:
                         continue
-                    g = np.asarray(got[b], dtype=float)
-                    w = np.asarray(w, dtype=float)
+                    g = np.squeeze(np.asarray(got[b], dtype=float))
+                    w = np.squeeze(np.asarray(w, dtype=float))
                     if g.shape != w.shape or not np.array_equal(g, w, equal_nan=True):
                         bad = (b, g.ravel()[:3].tolist(), w.ravel()[:3].tolist())
                         break
